@@ -76,12 +76,12 @@ type Value struct {
 
 // How a field was populated.
 const (
-	HowNew       = iota // NewString/NewInt/... constructor
-	HowSet              // zero value + Set
-	HowFromBytes        // zero value + FromBytes(text)
-	HowReSet            // FromBytes(other text) then Set(v): stale cached text must not survive
-	HowKVSet            // KeyValue.Set(NewX(v)) replacing the value object
-	HowParseClearSet    // FromBytes(text of v), Set(nil), Set(v): cleared and set again to the value it had
+	HowNew           = iota // NewString/NewInt/... constructor
+	HowSet                  // zero value + Set
+	HowFromBytes            // zero value + FromBytes(text)
+	HowReSet                // FromBytes(other text) then Set(v): stale cached text must not survive
+	HowKVSet                // KeyValue.Set(NewX(v)) replacing the value object
+	HowParseClearSet        // FromBytes(text of v), Set(nil), Set(v): cleared and set again to the value it had
 	NHow
 )
 
@@ -179,18 +179,19 @@ func plainDecimal(s string) bool {
 
 // Opts steer the generators.
 type Opts struct {
-	MaxDepth     int
-	MaxWidth     int
-	StdFraming   bool // use 8/9/35/10
-	Kinds        []Kind
-	Decoys       bool // strings that look like other fields of the same template
-	RelatedTags  bool // tags that are decimal suffixes/prefixes of one another
-	Trailer      bool // may populate trailer fields
-	AllowUnset   bool
-	MaxStrLen    int
-	MaxEntries   int
-	HowSet       []int // population methods to draw from
-	PopulateProb float64
+	MaxDepth      int
+	MaxWidth      int
+	StdFraming    bool // use 8/9/35/10
+	Kinds         []Kind
+	Decoys        bool // strings that look like other fields of the same template
+	RelatedTags   bool // tags that are decimal suffixes/prefixes of one another
+	Trailer       bool // may populate trailer fields
+	TrailerNested bool // the trailer may also hold components and repeating groups (default: plain fields only)
+	AllowUnset    bool
+	MaxStrLen     int
+	MaxEntries    int
+	HowSet        []int // population methods to draw from
+	PopulateProb  float64
 }
 
 func DefaultOpts() Opts {
@@ -267,7 +268,11 @@ func RandTemplate(r *rand.Rand, o Opts) *Template {
 	t.Header = randNodes(r, o, tp, width(), 1)
 	t.Body = randNodes(r, o, tp, width(), 1)
 	if o.Trailer {
-		t.Trailer = randNodes(r, o, tp, r.Intn(3), o.MaxDepth) // trailer: plain fields only
+		if o.TrailerNested {
+			t.Trailer = randNodes(r, o, tp, 1+r.Intn(3), o.MaxDepth-2)
+		} else {
+			t.Trailer = randNodes(r, o, tp, r.Intn(3), o.MaxDepth) // trailer: plain fields only
+		}
 	}
 	return t
 }
